@@ -240,6 +240,8 @@ def r02f(F):
 	# matured site sits in the loop over events that reached the confirmation threshold (see C11)
 	import chainrules
 	out += chainrules.restart_replay_guard(F, '02.f')
+	import C03
+	out += C03.r03n(F, '02.f')
 	return out
 
 def r02g(F):
